@@ -73,6 +73,7 @@ fn main() {
             cmd_backend::cmd_codegen(which, num(2, 1), num(3, 0) as usize, &mut *out, &args[5.min(args.len())..]);
         }
         "pm" => cmd_pm(num(2, 1), num(3, 100) as usize, &mut *out),
+        "lin-show" => { cmd_lin::cmd_lin_show(num(2, 1)); return; }
         "lin" => cmd_lin::cmd_lin(num(2, 1), num(3, 100) as usize, &mut *out, args.get(5..).unwrap_or(&[])),
         "stages" => cmd_stages::cmd_stages(num(2, 1), num(3, 0) as usize, args.get(5..).unwrap_or(&[]), &mut *out),
         c => { eprintln!("unknown command {c}"); std::process::exit(2); }
